@@ -5,7 +5,8 @@ Part 1 (this file): the fabrication functions of `FIXTester` (`Model/Tester.lean
 model of `fix_exec_report_msg` returns – for ALL tester states, order views and argument combinations,
 i.e. whenever none of the helper's own assertions (each modelled as an explicit refusal) fires –
 satisfies the quantity invariants, carries a fresh ExecID and exactly the documented tags; ExecIDs are
-strictly increasing over arbitrary call sequences; the OrderID is the order's own once it has one; the
+strictly increasing over arbitrary call sequences; the OrderID is stable per order (the order's own
+once it has one, the one remembered for its ClOrdID root before); the
 report is processed by the order object without raising when it was fabricated for that order; the
 same for cancel rejects; all fabricated messages pass the dictionary check generated from FIX44.xml.
 
@@ -99,19 +100,42 @@ theorem exec_ids_strictly_increasing (sc : Option (RMsg → Bool)) (st : TState)
 
 /-! ### OrderID -/
 
-/-- Full statement: two reports fabricated for the same order one after the other carry the same
-OrderID.  FALSE on the current tree while the order has no OrderID yet (D27; `Findings/C20.lean`). -/
-def order_id_stable_full : Prop :=
-  ∀ (sc : Option (RMsg → Bool)) (st st1 st2 : TState) (o : OrderView) (a1 a2 : Args) (m1 m2 : RMsg),
-    fabricate sc st o a1 = (st1, .ok m1) → fabricate sc st1 o a2 = (st2, .ok m2) → m1.str? 37 = m2.str? 37
-
-/-- Proved part: once the order has an OrderID, every report fabricated for it – on any tester, in any
-tester state, with any arguments – carries exactly that OrderID.  Excluded: `order.order_id is None`
-(known finding C20-orderid-unstable-before-first-processing). -/
+/-- Once the order has an OrderID, every report fabricated for it – on any tester, in any tester state,
+with any arguments – carries exactly that OrderID. -/
 theorem order_id_stable_partial {sc : Option (RMsg → Bool)} {st st' : TState} {o : OrderView} {a : Args} {m : RMsg}
     {x : String} (hid : o.orderId = some x) (h : fabricate sc st o a = (st', .ok m)) : m.str? 37 = some x := by
   obtain ⟨_, _, _, rfl, _⟩ := fabricate_ok h
   simp [RMsg.str?, buildReport_get37, orderIdOf, hid, Val.render]
+
+/-- Before the first report is processed (`order.order_id is None`): after a report was fabricated for an
+order, every later report on the same tester for an order with the same ClOrdID root and still without
+OrderID carries the same OrderID – whatever calls (any orders, any arguments, refused ones included, any
+schema) happened in between (fix e62ed38: `_order_ids`; D27 repaired). -/
+theorem order_id_stable_sequence {sc sc' sc'' : Option (RMsg → Bool)} {st st1 st3 : TState} {o o' : OrderView}
+    {a1 a2 : Args} {m1 m2 : RMsg} (calls : List (OrderView × Args))
+    (h1 : fabricate sc st o a1 = (st1, .ok m1)) (hid : o.orderId = none)
+    (hid' : o'.orderId = none) (hroot : rootOf o' = rootOf o)
+    (h2 : fabricate sc' (runCalls sc'' st1 calls).1 o' a2 = (st3, .ok m2)) :
+    m2.str? 37 = m1.str? 37 := by
+  obtain ⟨_, _, hst1, rfl, _⟩ := fabricate_ok h1
+  obtain ⟨_, _, _, rfl, _⟩ := fabricate_ok h2
+  obtain ⟨k, hk, hknow⟩ := orderIdOf_none (st := st) hid
+  have hk1 : lookupRoot (rootOf o) st1.orderIds = some k := by rw [hst1]; exact hknow
+  have hk2 := knows_runCalls sc'' calls hk1
+  have h37 : (orderIdOf (runCalls sc'' st1 calls).1 o').2 = .c k := by
+    unfold orderIdOf
+    rw [hid']
+    simp only [hroot, hk2]
+  simp [RMsg.str?, buildReport_get37, hk, h37]
+
+/-- **OrderID stable per order**: two reports fabricated for the same order one after the other carry the
+same OrderID, whether or not the order already has one. -/
+theorem order_id_stable_full (sc : Option (RMsg → Bool)) (st st1 st2 : TState) (o : OrderView) (a1 a2 : Args)
+    (m1 m2 : RMsg) (h1 : fabricate sc st o a1 = (st1, .ok m1)) (h2 : fabricate sc st1 o a2 = (st2, .ok m2)) :
+    m1.str? 37 = m2.str? 37 := by
+  cases hid : o.orderId with
+  | some x => rw [order_id_stable_partial hid h1, order_id_stable_partial hid h2]
+  | none => exact (order_id_stable_sequence (sc'' := sc) [] h1 hid hid rfl h2).symm
 
 /-! ## 2. `fabricated_processable` -/
 
